@@ -341,3 +341,101 @@ Lemma tree_spec_small a b :
   tree_spec [a; b] = perfect (depth_below 2) (firstn (2 * 2 ^ depth_below 2 - 2) [a; b] ++ pairs (skipn (2 * 2 ^ depth_below 2 - 2) [a; b])).
 Proof. split; reflexivity. Qed.
 End TreeProofs.
+
+(* ---- blocks: PoW blob and identifier ----------------------------------------------------------------- *)
+Lemma bytes_eqb_eq a : forall b, bytes_eqb a b = true <-> a = b.
+Proof.
+  induction a as [|x a IH]; intros [|y b]; cbn [bytes_eqb]; try (split; [discriminate|discriminate]); [tauto|].
+  rewrite andb_true_iff, IH. split.
+  - intros [E1 E2]. apply Byte.byte_dec_bl in E1. now subst.
+  - intros E. inversion E; subst. split; [now apply Byte.byte_dec_lb|reflexivity].
+Qed.
+
+Section BlockProofs.
+Variable H : bytes -> bytes.
+Local Open Scope N_scope.
+
+Lemma tx_root_correct mh txs : lenN txs < 2 ^ 28 -> tx_root H mh txs = Ok (root_spec H (mh :: txs)).
+Proof. intros Hl. exact (tree_hash_correct (hash_concat H) mh txs Hl). Qed.
+
+Lemma tx_root_panics mh txs : 2 ^ 28 <= lenN txs -> tx_root H mh txs = Panic.
+Proof. intros Hl. exact (tree_hash_panics (hash_concat H) mh txs Hl). Qed.
+
+Lemma lenN_cons {A} (x : A) l : lenN (x :: l) = 1 + lenN l.
+Proof. unfold lenN. cbn [length]. lia. Qed.
+
+Lemma hashable_blob_correct hdr mh txs : lenN txs < 2 ^ 28 ->
+  hashable_blob H hdr mh txs = Ok (blob_spec H leb128 hdr (mh :: txs)).
+Proof.
+  intros Hl. unfold hashable_blob. rewrite tx_root_correct by exact Hl.
+  assert (Hlt : 1 + lenN txs < 2 ^ 64).
+  { assert (2 ^ 28 < 2 ^ 64) by (apply N.pow_lt_mono_r; lia). lia. }
+  destruct (N.ltb_spec (1 + lenN txs) (2 ^ 64)) as [_|Ge]; [|lia].
+  unfold blob_spec. rewrite lenN_cons, enc_varint_is_leb. reflexivity.
+Qed.
+
+Lemma block_id_correct hdr mh txs : lenN txs < 2 ^ 28 ->
+  lenN (blob_spec H leb128 hdr (mh :: txs)) < 2 ^ 64 ->
+  block_id H hdr mh txs =
+  Ok (id_spec H leb128 correct_block_id_202612 existing_block_id_202612 hdr (mh :: txs)).
+Proof.
+  intros Hl Hb. unfold block_id. rewrite hashable_blob_correct by exact Hl.
+  destruct (N.ltb_spec (lenN (blob_spec H leb128 hdr (mh :: txs))) (2 ^ 64)) as [_|Ge]; [|lia].
+  unfold id_spec. rewrite enc_varint_is_leb. f_equal.
+  destruct (list_eq_dec Byte.byte_eq_dec _ correct_block_id_202612) as [E|NE].
+  - rewrite E. rewrite (proj2 (bytes_eqb_eq _ _) eq_refl). reflexivity.
+  - destruct (bytes_eqb _ correct_block_id_202612) eqn:Eb; [|reflexivity].
+    apply bytes_eqb_eq in Eb. contradiction.
+Qed.
+
+(* the substitution in words *)
+Lemma block_id_cases hdr mh txs : lenN txs < 2 ^ 28 ->
+  lenN (blob_spec H leb128 hdr (mh :: txs)) < 2 ^ 64 ->
+  let blob := blob_spec H leb128 hdr (mh :: txs) in
+  let h := H (leb128 (lenN blob) ++ blob) in
+  (h = correct_block_id_202612 -> block_id H hdr mh txs = Ok existing_block_id_202612) /\
+  (h <> correct_block_id_202612 -> block_id H hdr mh txs = Ok h).
+Proof.
+  intros Hl Hb blob h. rewrite block_id_correct by assumption. unfold id_spec. fold blob. fold h.
+  destruct (list_eq_dec Byte.byte_eq_dec h correct_block_id_202612) as [E|NE]; split; intros X; try reflexivity; contradiction.
+Qed.
+End BlockProofs.
+
+(* ---- the Keccak instance: the blob is short, so the length conversion in Block::id never fails ------------- *)
+From MRS Require Import Proofs.KeccakProofs.
+
+Lemma tree_spec_shape hc l : (3 <= length l)%nat -> (N.of_nat (length l) <= 2 ^ 28)%N ->
+  exists a b, tree_spec hc l = hc a b.
+Proof.
+  intros H3 H28. destruct l as [|x [|y [|z t]]]; cbn [length] in H3; try lia.
+  unfold tree_spec. cbv beta iota.
+  destruct (depth_below_facts (length (x :: y :: z :: t)) H3 H28) as [_ [Hd _]].
+  destruct (depth_below (length (x :: y :: z :: t))) as [|d]; [lia|].
+  cbn [perfect]. eexists; eexists; reflexivity.
+Qed.
+
+Lemma root_spec_keccak_length mh txs : length mh = 32%nat -> (lenN txs < 2 ^ 28)%N ->
+  length (root_spec keccak256 (mh :: txs)) = 32%nat.
+Proof.
+  intros Hm Hl. unfold root_spec. destruct txs as [|a [|b t]].
+  - exact Hm.
+  - apply keccak256_length.
+  - destruct (tree_spec_shape (fun a b => keccak256 (a ++ b)) (mh :: a :: b :: t)) as [u [v E]].
+    + cbn [length]. lia.
+    + unfold lenN in Hl. cbn [length] in *. unfold bytes in *. lia.
+    + rewrite E. apply keccak256_length.
+Qed.
+
+Lemma block_id_keccak hdr mh txs :
+  length mh = 32%nat -> (lenN txs < 2 ^ 28)%N -> (lenN hdr < 2 ^ 32)%N ->
+  block_id keccak256 hdr mh txs =
+  Ok (id_spec keccak256 leb128 correct_block_id_202612 existing_block_id_202612 hdr (mh :: txs)).
+Proof.
+  intros Hm Hl Hh. apply block_id_correct; [exact Hl|].
+  unfold blob_spec, lenN. rewrite !app_length, root_spec_keccak_length by assumption.
+  rewrite <- enc_varint_is_leb.
+  assert (Hv : (1 <= length (enc_varint (lenN (mh :: txs))) <= 10)%nat).
+  { apply enc_varint_len_bounds. rewrite lenN_cons.
+    assert (2 ^ 28 < 2 ^ 64)%N by (apply N.pow_lt_mono_r; lia). unfold bytes in *. lia. }
+  unfold lenN in *. unfold bytes in *. change (2 ^ 32)%N with 4294967296%N in Hh. change (2 ^ 64)%N with 18446744073709551616%N. lia.
+Qed.
